@@ -430,3 +430,23 @@ ADDENDA3 = {
 }
 for _pid, _add in ADDENDA3.items():
     CHECKS[_pid]["text"] = CHECKS[_pid]["text"].rstrip() + _add
+
+ADDENDA4 = {
+    'C01': ' Round 7: every provider also hands out lockers of other names, before or after the ones under test.',
+    'C02': ' Round 7: a dead record read and overwritten at the same instant, 300000 rounds (WideTrace OverDead).',
+    'C03': ' Round 7: one storage asked for about 800 distinct ListKeys patterns, the early ones again (WideTrace ManyPatterns).',
+    'C05': " Round 7: lock acquired through LockWithCtx whose context ends after the grant, over a facade that honours the caller's context.",
+    'C06': ' Round 7: the expiry-under-parked-waiters scenarios (deadline / expire / expire2) run here too.',
+    'C07': ' Round 7: two waiters parked while every kind of write replaces or removes the record, also records expired on arrival (PromptTrace).',
+    'C08': ' Round 7: one ExpirableCache in use for 17 s of real time with expired items resident (alongside the TLC jobs).',
+    'C10': ' Round 7: maps of nine instantiations (interface-typed keys and values among them) side by side in one process (Types line).',
+    'C12': ' Round 7: delays of 10-12 s (thorough: up to 61 s) waited out in a process alongside the check.',
+    'C13': ' Round 7: one process uses the package exactly as it comes up (no VerifConfigure): 3000 short futures, each scheduled the instant the previous one has run.',
+    'C14': ' Round 7: ReadN destinations with spare capacity behind their length.',
+    'C15': ' Round 7: one ObjectsWriter whose Writer field is replaced between items.',
+    'C16': ' Round 7: more than 2^31 short newBuf decodes in one process; recorded decodes carry an over-read flag from the guarded arena.',
+    'C17': ' Round 7: indexes near the top of the int range for which offset arithmetic wraps round into the first segments.',
+    'C20': ' Round 7: contents that start like files of well-known formats.',
+}
+for _pid, _add in ADDENDA4.items():
+    CHECKS[_pid]["text"] = CHECKS[_pid]["text"].rstrip() + _add
